@@ -210,7 +210,7 @@ static struct uref *mk_flow_def(struct ctx *c, int v)
 {
     if (v == 3) {   /* not a block flow */
         struct uref *u = uref_alloc(c->pfx.fm.uref_mgr);
-        if (u) uref_flow_set_def(u, "pic.");
+        if (u) { uref_flow_set_def(u, "pic."); uref_block_flow_set_size(u, 300); }   /* (attributes a block pipe would read from a definition it accepts) */
         return u;
     }
     struct uref *u = pfx_flow_def_block(&c->pfx, defname(v) + 6 /* alloc_def adds "block." */);
@@ -547,7 +547,10 @@ static void op_set_flow_def(struct ctx *c)
     if (v == 3 && !zoo[z->type].strict_block) v = 1;   /* a non-block definition is only offered to pipes documented to refuse it */
     struct uref *fd = mk_flow_def(c, v);
     if (!fd) return;
-    int err = upipe_set_flow_def(z->upipe, fd);
+    /* C20, second pass: "a rejected setter leaves the previous value in force" -- a definition the pipe must refuse (the first
+     * pass saw it refused) is not offered at all; what the sinks see afterwards must be the same */
+    bool left_out = ORACLE_OPTS && c->skip_getters && v == 3 && zoo[z->type].strict_block;
+    int err = left_out ? UBASE_ERR_INVALID : upipe_set_flow_def(z->upipe, fd);
     uref_free(fd);
     char what[64];
     snprintf(what, sizeof what, "set_flow_def(p%d:%s, v%d)", j, zoo[z->type].name, v);
@@ -966,7 +969,7 @@ static int run(const uint8_t *tape, size_t len, struct vp_report *rep, unsigned 
     if (r == 2) return vp_internal(rep, "second pass: %s", r2.msg);
     if (r == 1) return vp_fail(rep, r2.key, "without getter calls: %s", r2.msg);
     if (ctx.trace != with_getters)
-        return vp_fail(rep, "C20/noninterference/trace", "the sinks saw different flow definitions / buffers when the getter calls of this history are left out: a getter changed what the pipe does");
+        return vp_fail(rep, "C20/noninterference/trace", "the sinks saw different flow definitions / buffers when the getter calls of this history (and the flow definitions the pipe refused) are left out: a getter, or a setter that was rejected, changed what the pipe does");
     return 0;
 #else
     return run_once(tape, len, rep, flags, false, -1);
